@@ -14,6 +14,11 @@ NLVal(k, x) == CASE k = 1 -> x[1] + x[2] + x[3] [] k = 2 -> x[1] - 2 * x[3] + 1 
 LinVal(k, x) == CASE k = 1 -> x[1] + x[3] [] k = 2 -> x[1] - x[3] [] k = 3 -> x[1] + x[2]
 LinTouchesFixed(k) == k = 3
 Full(g) == <<g[1], 1, g[2]>>                       \* grid point (x1, x3) completed with x2 = 1
+\* mask "fix23": x2 = 1 and x3 = 0 are fixed; linear rows l1 = x1 + x2 - x3 (the fixed coefficients cancel in the sum),
+\* l2 = x1, l3 = x1 + x2 - only l2 involves no fixed variable
+LinVal23(k, x) == CASE k = 1 -> x[1] + x[2] - x[3] [] k = 2 -> x[1] [] k = 3 -> x[1] + x[2]
+LinTouchesFixed23(k) == k \in {1, 3}
+Full23(g) == <<g[1], 1, 0>>
 SeqToSet(s) == {s[i] : i \in 1..Len(s)}
 
 \* observed extended number against an integer bound with INF sentinel
@@ -24,17 +29,18 @@ ObsLe(a, b) == (a.k = "inf" /\ a.n = -1) \/ (b.k = "inf" /\ b.n = 1) \/ (a.k = "
 Check(e) ==
   LET nNL == Len(e.nl)   nLin == Len(e.lin)
       masked == e.mask = "fix2"
-      free == IF masked THEN <<1, 3>> ELSE <<1, 2, 3>>
-      keptLin == {k \in 1..nLin : ~(masked /\ LinTouchesFixed(k))}
+      fix23 == e.mask = "fix23"
+      free == IF fix23 THEN <<1>> ELSE IF masked THEN <<1, 3>> ELSE <<1, 2, 3>>
+      keptLin == {k \in 1..nLin : ~(masked /\ LinTouchesFixed(k)) /\ ~(fix23 /\ LinTouchesFixed23(k))}
       \* a narrow band [-1, -1 + 1e-6] contains exactly the integer -1
       NLB(k) == IF e.narrow /\ k = 1 THEN [lb |-> -1, ub |-> -1] ELSE Bounds(e.nl[k])
       nEq == Cardinality({k \in 1..nNL : e.nl[k] = "eq"}) + Cardinality({k \in keptLin : e.lin[k] = "eq"})
       G == 1..Len(e.grid)
-      x(i) == Full(e.grid[i])
+      x(i) == IF fix23 THEN Full23(e.grid[i]) ELSE Full(e.grid[i])
       cfgFeasible(i) ==
         /\ \A j \in 1..Len(free) : Sat(x(i)[free[j]], [lb |-> e.vlb[free[j]], ub |-> e.vub[free[j]]])
         /\ \A k \in 1..nNL : Sat(NLVal(k, x(i)), NLB(k))
-        /\ \A k \in keptLin : Sat(LinVal(k, x(i)), Bounds(e.lin[k]))
+        /\ \A k \in keptLin : Sat(IF fix23 THEN LinVal23(k, x(i)) ELSE LinVal(k, x(i)), Bounds(e.lin[k]))
       boundsOK(i) == ~e.bounds.present \/ \A j \in 1..Len(free) :
                         ObsLe(e.bounds.lb[j], [k |-> "q", n |-> x(i)[free[j]], d |-> 1]) /\ ObsLe([k |-> "q", n |-> x(i)[free[j]], d |-> 1], e.bounds.ub[j])
       rowsOK(i) == \A r \in 1..Len(e.rows) : IF e.rows[r].eq THEN ObsSign(e.rows[r].vals[i]) = 0 ELSE ObsSign(e.rows[r].vals[i]) >= 0
